@@ -2,8 +2,10 @@ package main
 
 import (
 	"fmt"
+	"math/rand"
 	"strconv"
 	"strings"
+	"sync/atomic"
 	"time"
 
 	"github.com/google/uuid"
@@ -21,6 +23,8 @@ import (
 // i; 90 is a node of another tree over the same roster, 99 a random node id;
 // server 10 is not part of the tree.
 
+var c02unknown int64 // every unknown-tree case gets its own roster order, hence its own tree id
+
 func c02exec(c *h.Ctx, cs *h.Case) {
 	f := c04get()
 	var ct c04tree
@@ -36,6 +40,8 @@ func c02exec(c *h.Ctx, cs *h.Case) {
 		bad    bool
 		ty     int
 	}
+	parked := false
+	var flushStarted, flushDone int64
 	sentBy := map[int]sent{}
 	delivered := map[int]bool{}
 	foreign, _ := fix.BuildTree(f.cl.Roster, []int{-1, 0}, []int{9, 10}) // node ids derive from the server key: use a server outside every harness tree
@@ -59,8 +65,17 @@ func c02exec(c *h.Ctx, cs *h.Case) {
 		}
 		var si *network.ServerIdentity
 		if peer != "-" {
-			p, _ := strconv.Atoi(peer)
-			si = f.cl.SI(p)
+			if i := strings.Index(peer, "f"); i > 0 {
+				// the key of server k, announcing the deprecated ID field of server v
+				k, _ := strconv.Atoi(peer[:i])
+				v, _ := strconv.Atoi(peer[i+1:])
+				cp := *f.cl.SI(k)
+				cp.ID = f.cl.SI(v).ID
+				si = &cp
+			} else {
+				p, _ := strconv.Atoi(peer)
+				si = f.cl.SI(p)
+			}
 		}
 		env, err := fix.Envelope(si, from, to, fix.Payload(ty, v))
 		if err != nil {
@@ -109,7 +124,7 @@ func c02exec(c *h.Ctx, cs *h.Case) {
 						cs.Fail("wrong-node", fmt.Sprintf("message %d delivered with another node than the claimed sender", it.V))
 					}
 					if s.peer != "-" {
-						p, _ := strconv.Atoi(s.peer)
+						p, _ := strconv.Atoi(strings.SplitN(s.peer, "f", 2)[0])
 						if !it.Node.ServerIdentity.Equal(f.cl.SI(p)) {
 							cs.Fail("peer-mismatch-delivered", fmt.Sprintf("message %d: node's server differs from the connection peer %s", it.V, s.peer))
 						}
@@ -126,14 +141,61 @@ func c02exec(c *h.Ctx, cs *h.Case) {
 	for _, op := range cs.Ops {
 		tk := strings.Fields(op)
 		switch {
-		case len(tk) == 6 && tk[1] == "cfg":
+		case (len(tk) == 6 || len(tk) == 7) && tk[1] == "cfg":
 			k, _ := strconv.Atoi(tk[4])
 			isRoot = tk[3] == "-"
-			ct = f.tree(isRoot, k)
+			if len(tk) == 7 {
+				// a tree the receiver has never seen: same servers and shape over a re-ordered roster
+				ct = f.unknownTree(isRoot, k, rand.New(rand.NewSource(c.Seed*1000003+atomic.AddInt64(&c02unknown, 1))))
+				parked = true
+			} else {
+				ct = f.tree(isRoot, k)
+			}
 			nodes = ct.t.List()
 			// Tree.List is pre-order: root, (mid,) children — the same order as the ops use
 			to = fix.TokenFor(ct.t, ct.target, round)
 			cs.Impl = append(cs.Impl, "ok")
+		case len(tk) == 2 && tk[1] == "treearrives":
+			if !parked {
+				cs.Impl = append(cs.Impl, "ok")
+				continue
+			}
+			onet.VerifSetHook(func(name string, key interface{}) {
+				switch name {
+				case "cpm.start":
+					atomic.AddInt64(&flushStarted, 1)
+				case "cpm.done":
+					atomic.AddInt64(&flushDone, 1)
+				}
+			})
+			f.cl.Overlay(ct.srv).RegisterTree(ct.t)
+			for dl := time.Now().Add(5 * time.Second); time.Now().Before(dl); time.Sleep(200 * time.Microsecond) {
+				if s := atomic.LoadInt64(&flushStarted); s > 0 && s == atomic.LoadInt64(&flushDone) {
+					break
+				}
+			}
+			onet.VerifSetHook(nil)
+			parked = false
+			barrier++
+			bi := 0
+			if isRoot {
+				bi = 1
+			}
+			inject(9, strconv.Itoa(10+bi), strconv.Itoa(bi), barrier)
+			rec = fix.RecOf(to)
+			if rec == nil {
+				cs.Impl = append(cs.Impl, "no-instance")
+				cs.Fail("no-instance", "no instance after the tree arrived")
+				return
+			}
+			select {
+			case <-rec.SyncCh:
+			case <-time.After(10 * time.Second):
+				cs.Impl = append(cs.Impl, "hang")
+				cs.Fail("hang", "barrier not handled within 10 s after the tree arrived")
+				return
+			}
+			cs.Impl = append(cs.Impl, show(rec.Drain()))
 		case len(tk) == 2 && tk[1] == "rereg":
 			// an equal copy of the tree replaces the stored Tree object
 			k := len(ct.target.Children)
@@ -145,11 +207,21 @@ func c02exec(c *h.Ctx, cs *h.Case) {
 			bad := tk[3] == "-" || tk[3] == "90" || tk[3] == "99"
 			if !bad && tk[4] != "-" {
 				i, _ := strconv.Atoi(tk[3])
-				p, _ := strconv.Atoi(tk[4])
+				p, _ := strconv.Atoi(strings.SplitN(tk[4], "f", 2)[0]) // only the key is authenticated
 				bad = !nodes[i-10].ServerIdentity.Equal(f.cl.SI(p))
 			}
 			sentBy[v] = sent{tk[3], tk[4], bad, ty}
 			inject(ty, tk[3], tk[4], v)
+			if parked {
+				// the tree is unknown: the envelope is parked, nothing can be delivered yet
+				time.Sleep(200 * time.Microsecond)
+				if rec = fix.RecOf(to); rec != nil {
+					cs.Impl = append(cs.Impl, show(rec.Drain()))
+				} else {
+					cs.Impl = append(cs.Impl, "-")
+				}
+				continue
+			}
 			barrier++
 			// honest barrier from the parent (or child 0 for a root)
 			bi := 0
@@ -196,6 +268,9 @@ func classify(sender, peer string) string {
 	case "99":
 		return "random-node-id"
 	}
+	if strings.Contains(peer, "f") {
+		return "forged-id-field"
+	}
 	if peer == "10" {
 		return "member-id-from-outsider"
 	}
@@ -240,7 +315,8 @@ func c02gen(c *h.Ctx, yield func(*h.Case)) {
 		for i := 0; i < n; i++ {
 			s = append(s, strconv.Itoa(i))
 		}
-		return append(s, "10", "-")
+		// the key of an outsider / of member 0 announcing the ID field of another member
+		return append(s, "10", "-", fmt.Sprintf("10f%d", n-1), fmt.Sprintf("0f%d", n-1))
 	}
 	// exhaustive table: every (type, claimed sender, peer) alone on a fresh instance,
 	// for aggregated types followed by honest messages that would complete the batch
@@ -263,6 +339,38 @@ func c02gen(c *h.Ctx, yield func(*h.Case)) {
 						}
 						c.Count("class=table")
 						c.Count("sender=" + classify(s, p))
+						yield(cs)
+					}
+				}
+			}
+		}
+	}
+	// the receiver learns the tree only after the envelopes arrived: they are parked, then flushed
+	for _, root := range []bool{false, true} {
+		for _, k := range []int{1, 2} {
+			for ty := 1; ty <= 4; ty++ {
+				for _, s := range senders(root, k) {
+					for _, p := range peers(root, k) {
+						if p == "-" || r.Intn(c.Pick(4, 1)) != 0 {
+							// without a peer identity (local injection) there is nobody to ask for the tree
+							continue
+						}
+						cs := &h.Case{Class: fmt.Sprintf("parked ty=%d", ty)}
+						cs.Ops = append(cs.Ops, cfg(root, k)+" unknown-tree")
+						val++
+						cs.Ops = append(cs.Ops, fmt.Sprintf("c02 msg %d %s %s %d", ty, s, p, val))
+						first := 2
+						if root {
+							first = 1
+						}
+						for i := 0; i < k; i++ {
+							val++
+							cs.Ops = append(cs.Ops, fmt.Sprintf("c02 msg %d %d %d %d", ty, 10+first+i, first+i, val))
+						}
+						cs.Ops = append(cs.Ops, "c02 treearrives")
+						val++
+						cs.Ops = append(cs.Ops, fmt.Sprintf("c02 msg 3 %d %d %d", 10+first, first, val))
+						c.Count("class=parked")
 						yield(cs)
 					}
 				}
